@@ -5,6 +5,7 @@ CONSTANTS
   SepLens <- SL2
   WidthRule = "full"
   ExpandRule = "atleast1"
+  CsvCtx = "own"
 INIT Init
 NEXT Next
 INVARIANT Emit
